@@ -65,7 +65,7 @@ def main():
     return runner.run_check(pid, args.tier, seed, budget_s=args.budget, n_runs=args.runs)
 
 
-ALL = ["C01", "C02", "C03", "C04", "C05", "C06", "C11", "C13", "C14", "C15", "C16", "C17", "C19"]
+ALL = ["C01", "C02", "C03", "C04", "C05", "C06", "C08", "C11", "C13", "C14", "C15", "C16", "C17", "C19"]
 
 if __name__ == "__main__":
     sys.exit(main())
